@@ -2,6 +2,18 @@
 """Markdown table of the seeded regressions under seeded/*/meta.json."""
 import glob, json, os
 V = os.path.dirname(os.path.dirname(os.path.abspath(__file__)))
+import sys
+if '--summary' in sys.argv:
+    yes, missed, tie = [], [], []
+    for f in sorted(glob.glob(os.path.join(V, 'seeded', '*', 'meta.json'))):
+        m = json.load(open(f))
+        d = m['detected'].lower()
+        (yes if d.startswith('yes') else missed if 'missed' in d[:40] else tie).append(m['seed_id'])
+    n = len(yes) + len(missed) + len(tie)
+    print(f"{n} seeds: {len(yes)} were reported at once with a concrete failing input; {len(missed)} were MISSED at first "
+          f"({', '.join(missed)}) and {len(tie)} were reported only as a broken tie without a failing input "
+          f"({', '.join(tie)}).")
+    sys.exit(0)
 print('| seed | property | needs, to manifest | detected by the quick check |')
 print('|---|---|---|---|')
 for f in sorted(glob.glob(os.path.join(V, 'seeded', '*', 'meta.json'))):
